@@ -282,7 +282,9 @@ currently-scanned namespace is first."""
                 for prefix in prefixes:
                     if (not is_identifier) and (not prefix.endswith('_')):
                         prefix = prefix + '_'
-                    if name.startswith(prefix):
+                    # A prefix that would leave nothing of the name does not
+                    # match; another prefix of the namespace still may
+                    if name.startswith(prefix) and len(name) > len(prefix):
                         matches.append((ns, name[len(prefix):], len(prefix)))
                         break
             else:
